@@ -4,12 +4,14 @@
 -/
 import Tranp.Lemmas.SymbolJson
 import Tranp.Lemmas.SymbolJsonExact
+import Tranp.Lemmas.SymbolJsonText
 import Tranp.Generated.SymbolTables
 import Tranp.Generated.SymbolDbState
 import Tranp.Generated.SymbolRows
 
 namespace Tranp.C14
 open Tranp Tranp.SymbolJson
+open Tranp.Lark (Json printJson parseJson)
 
 /-! ### flattening -/
 
@@ -767,5 +769,85 @@ theorem row_schema_generated :
     expandGuard = ['i', 't', 'e', 'r', '_', 'k', 'e', 'y', ' ', 'a', 'n', 'd', ' ', 'h', 'a', 's', 'a', 't', 't', 'r', '(', 'e', 'n', 't', 'r', 'y', ',', ' ', 'i', 't', 'e', 'r', '_', 'k', 'e', 'y', ')'] ∧
     expandDispatch = [['t', 'y', 'p', 'e', '(', 'e', 'n', 't', 'r', 'y', ')', ' ', 'i', 's', ' ', 'l', 'i', 's', 't'], ['t', 'y', 'p', 'e', '(', 'e', 'n', 't', 'r', 'y', ')', ' ', 'i', 's', ' ', 'd', 'i', 'c', 't']] := by
   decide +kernel
+
+/-! ### the JSON text form (persistent.py:159-173: `json.dumps(rows, separators=(',', ':'))`, later `json.loads`) -/
+
+/-- **The text round trip of every row list with non-empty index paths**: what `json.loads` reads from the written text, taken
+    apart the way `deserialize` takes a row apart (by key; `class` ≠ `'Symbol'` is a Reflection row; `attrs` keys are index
+    paths), is the rows that were written — whatever characters the keys and DSNs contain (quotes, backslashes, non-ASCII). -/
+theorem text_rt (d : List (Str × Row)) (h : ∀ kr ∈ d, ∀ pk ∈ rowFlat kr.2, pk.1 ≠ []) : readText (writeText d) = some d :=
+  readText_writeText d h
+
+/-- non-vacuity: two rows, a two-digit index, a key with a quote and a non-ASCII letter -/
+example :
+    let d : List (Str × Row) := [(['m', '#', '"', 'é'], .symbol ['m', '#', 'A'] []),
+      (['m', '#', 'x'], .reflection ['m', '#', 'x'] ['m', '#', 'x'] ['m', '#', 'A'] ['m', '#', 'A'] [([0], ['c', '#', 'i']), ([0, 10], ['c', '#', 's'])])]
+    writeText d = ['{', '"', 'm', '#', '\\', '"', '\\', 'u', '0', '0', 'e', '9', '"', ':', '{', '"', 'c', 'l', 'a', 's', 's', '"', ':', '"', 'S', 'y', 'm', 'b', 'o', 'l', '"', ',',
+        '"', 't', 'y', 'p', 'e', 's', '"', ':', '"', 'm', '#', 'A', '"', ',', '"', 'a', 't', 't', 'r', 's', '"', ':', '{', '}', '}', ',',
+        '"', 'm', '#', 'x', '"', ':', '{', '"', 'c', 'l', 'a', 's', 's', '"', ':', '"', 'R', 'e', 'f', 'l', 'e', 'c', 't', 'i', 'o', 'n', '"', ',',
+        '"', 'n', 'o', 'd', 'e', '"', ':', '"', 'm', '#', 'x', '"', ',', '"', 'd', 'e', 'c', 'l', '"', ':', '"', 'm', '#', 'x', '"', ',',
+        '"', 'o', 'r', 'i', 'g', 'i', 'n', '"', ':', '"', 'm', '#', 'A', '"', ',', '"', 'v', 'i', 'a', '"', ':', '"', 'm', '#', 'A', '"', ',',
+        '"', 'a', 't', 't', 'r', 's', '"', ':', '{', '"', '0', '"', ':', '"', 'c', '#', 'i', '"', ',', '"', '0', '.', '1', '0', '"', ':', '"', 'c', '#', 's', '"', '}', '}', '}'] ∧
+      readText (writeText d) = some d := by
+  refine ⟨by decide +kernel, text_rt _ ?_⟩
+  intro kr hkr pk hpk
+  simp only [List.mem_cons, List.not_mem_nil, or_false] at hkr
+  rcases hkr with rfl | rfl
+  · simp [rowFlat] at hpk
+  · simp only [rowFlat, List.mem_cons, List.not_mem_nil, or_false] at hpk
+    rcases hpk with rfl | rfl <;> simp
+
+/-- the hypothesis is needed: an empty index path is written as the key `""`, which is not an index path -/
+example : readText (writeText [(['k'], .symbol ['t'] [([], ['a'])])]) = none := by decide +kernel
+
+/-- **The exported text.** For every export of a module: the text reads back as the exported rows; it is pure ASCII (so
+    `.encode('utf-8')` is the identity on it); and no object in it has a repeated key — the row keys are pairwise distinct and so are
+    the path keys of each row (a Python dict and the list of pairs are the same thing). -/
+theorem export_text_rt (W : World) (t : Table) (M : Str) (hM : M ≠ []) (d : List (Str × Row)) (hexp : toJson W t (some M) = .ok d) :
+    readText (writeText d) = some d ∧ (∀ c ∈ writeText d, c.toNat < 128) ∧
+    (d.map Prod.fst).Nodup ∧ ∀ kr ∈ d, ((rowFlat kr.2).map (fun pk => encPath pk.1)).Nodup := by
+  obtain ⟨_, hn, hrows, _⟩ := export_rows W t M hM d hexp
+  have hpaths : ∀ kr ∈ d, ∀ pk ∈ rowFlat kr.2, pk.1 ≠ [] := by
+    intro kr hkr
+    obtain ⟨_, s, _, hr⟩ := hrows kr hkr
+    rw [hr]
+    exact serialize_paths W s
+  refine ⟨text_rt d hpaths, Tranp.Lark.printJson_ascii _, hn, ?_⟩
+  intro kr hkr
+  obtain ⟨_, s, _, hr⟩ := hrows kr hkr
+  have hfl : rowFlat kr.2 = expand s.attrs := by
+    rw [hr]; unfold serialize; split <;> rfl
+  have hnd : ((rowFlat kr.2).map Prod.fst).Nodup := by
+    rw [hfl, SymbolJson.expand_eq_flatten]; exact flatList_keys_nodup 0 s.attrs
+  have hnd' : (rowFlat kr.2).Pairwise (fun a b => a.1 ≠ b.1) := by
+    have := hnd
+    rwa [List.Nodup, List.pairwise_map] at this
+  rw [List.Nodup, List.pairwise_map]
+  refine List.Pairwise.imp_of_mem ?_ hnd'
+  intro a b ha hb hne heq
+  apply hne
+  have h1 := decPath_encPath a.1 (hpaths kr hkr a ha)
+  have h2 := decPath_encPath b.1 (hpaths kr hkr b hb)
+  rw [heq, h2] at h1
+  exact (Option.some.inj h1).symm
+
+/-- **Export → text → read → import, end to end**: for every Loaded table with SymOK and ViaOK, the text written for module `M`
+    is read back as rows that import into the unloaded table without error, and every key has exactly its old entry again. -/
+theorem rt_text_exact (W : World) (t : Table) (M : Str) (d : List (Str × Row)) (rank : Str → Nat) (hM : M ≠ [])
+    (hexp : toJson W t (some M) = .ok d) (hl : Loaded W t M rank)
+    (hwf : ∀ K s, dictGet? t.items K = some s → modOf K = M → SymOK W t s)
+    (hvia : ∀ K s, dictGet? t.items K = some s → modOf K = M → ViaOK W t s) :
+    ∃ d' T, readText (writeText d) = some d' ∧ importJson W (t.unload M) d' = .ok T ∧
+      (∀ K, dictGet? T.items K = dictGet? t.items K) ∧ ∀ kr ∈ d', T.isCompleted (modOf kr.1) = true := by
+  obtain ⟨T, hT, hkey, hc⟩ := rt_unload_exact W t M d rank hM hexp hl hwf hvia
+  exact ⟨d, T, (export_text_rt W t M hM d hexp).1, hT, hkey, hc⟩
+
+open Tranp.Generated.SymbolTables in
+/-- the shipped library modules, end to end through the text, without hypotheses -/
+theorem shipped_rt_text (M : Str) (hM : M ∈ modules) (d : List (Str × Row)) (hexp : toJson world table (some M) = .ok d) :
+    ∃ d' T, readText (writeText d) = some d' ∧ importJson world (table.unload M) d' = .ok T ∧
+      (∀ K, dictGet? T.items K = dictGet? table.items K) ∧ ∀ kr ∈ d', T.isCompleted (modOf kr.1) = true := by
+  obtain ⟨h1, h2, h3⟩ := shipped_invariants M hM
+  exact rt_text_exact world table M d rank h1 hexp h2 (symOK_of_check world table M h3) (viaOK_of_check world table M (shipped_via M hM))
 
 end Tranp.C14
